@@ -161,7 +161,7 @@ func genPts(t *rapid.T) (string, [][2]int64) {
 // ulps off a segment), circles, uniform clouds, a small shape at a large offset,
 // and sets at the two ends of the float64 range.
 func genPtsF(t *rapid.T) (string, [][2]model.F) {
-	shape := rapid.SampledFrom([]string{"f-near-collinear", "f-near-collinear", "f-circle", "f-uniform", "f-offset", "f-tiny", "f-huge", "f-two-near-lines"}).Draw(t, "fshape")
+	shape := rapid.SampledFrom([]string{"f-near-collinear", "f-near-collinear", "f-circle", "f-uniform", "f-offset", "f-tiny", "f-huge", "f-two-near-lines", "f-lattice-scaled"}).Draw(t, "fshape")
 	var n int
 	switch rapid.IntRange(0, 4).Draw(t, "sizeclass") {
 	case 0:
@@ -230,6 +230,14 @@ func genPtsF(t *rapid.T) (string, [][2]model.F) {
 		}
 		if n >= 3 && rapid.IntRange(0, 2).Draw(t, "offline") == 0 {
 			add(u("px"), u("py"))
+		}
+	case "f-lattice-scaled":
+		// a small integer lattice (many exactly collinear and coincident points) times an
+		// exact power of two at either end of the float64 range
+		k := rapid.SampledFrom([]int{-1074, -1073, -1060, -1022, -1000, -540, -500, 0, 500, 511, 540, 1000, 1019}).Draw(t, "lk")
+		side := rapid.SampledFrom([]int{3, 3, 4, 5, 8}).Draw(t, "lside")
+		for i := 0; i < n; i++ {
+			add(math.Ldexp(float64(rapid.IntRange(-side, side).Draw(t, "lx")), k), math.Ldexp(float64(rapid.IntRange(-side, side).Draw(t, "ly")), k))
 		}
 	case "f-circle":
 		r := rapid.Float64Range(0.5, 1000).Draw(t, "r")
